@@ -1,0 +1,54 @@
+//go:build verif
+
+package identity
+
+// Contracts for identities (properties C09, C02, C08).
+// Comment-only file: it is compiled only with -tags verif and contains no code.
+
+//@ func (*version).Id
+//@   trusted
+//@   maypanic
+//@   requires v != nil
+//@   modifies v.id
+//@   ensures result == v.id && result != "" && result != entity.UnsetId
+//@   ensures old(v.id) != entity.UnsetId ==> v.id == old(v.id)
+
+//@ func (*Identity).Id
+//@   props C09 C02
+//@   requires i != nil && len(i.versions) > 0 && i.versions[0] != nil
+//@   modifies i.versions[0].id
+//@   ensures result == i.versions[0].id && result != "" && result != entity.UnsetId
+//@   ensures old(i.versions[0].id) != entity.UnsetId ==> i.versions[0].id == old(i.versions[0].id)
+
+//@ func (*Identity).Merge
+//@   props C09 C02
+//@   nopanic
+//@   let n = len(old(i.versions))
+//@   let m = len(other.versions)
+//@   requires [repo]     repo != nil
+//@   requires [wf-self]  i != nil && n > 0 && i.versions[0] != nil && i.versions[0].id != entity.UnsetId
+//@   requires [wf-other] other != nil && other != i && m > 0 && other.versions[0] != nil && other.versions[0].id != entity.UnsetId
+//@   requires [non-nil]  (forall k int :: { i.versions[k] } 0 <= k && k < n ==> i.versions[k] != nil) && (forall k int :: { other.versions[k] } 0 <= k && k < m ==> other.versions[k] != nil)
+//@   requires [disjoint] sarr(i.versions) != sarr(other.versions)
+//@   let sameId = old(i.versions[0].id) == old(other.versions[0].id)
+//@   let agree  = forall j int :: { other.versions[j] } 0 <= j && j < min(n, m) ==> old(i.versions[j]).commitHash == other.versions[j].commitHash
+//@   let ref    = identityRefPattern + string(old(i.versions[0].id))
+//@   ensures [unrelated]  !sameId ==> err != nil && result == false && repository.refs == old(repository.refs) && len(i.versions) == n
+//@   ensures [diverged]   sameId && !agree ==> err == ErrNonFastForwardMerge && result == false && repository.refs == old(repository.refs)
+//@   ensures [up-to-date] sameId && agree && m <= n ==> err == nil && result == false && repository.refs == old(repository.refs) && len(i.versions) == n
+//@   ensures [ff-versions] sameId && agree && m > n && err == nil ==> len(i.versions) == m && (forall j int :: { i.versions[j] } 0 <= j && j < m ==> i.versions[j].commitHash == other.versions[j].commitHash) && (forall j int :: { i.versions[j] } n <= j && j < m ==> i.versions[j] == other.versions[j])
+//@   ensures [ff-ref]      sameId && agree && m > n && err == nil ==> repository.refs == update(old(repository.refs), ref, other.versions[m - 1].commitHash)
+//@   ensures [ff-reported] sameId && agree && m > n && err == nil ==> result == true
+//@   ensures [append-only] len(i.versions) >= n && (forall j int :: { i.versions[j] } 0 <= j && j < n ==> i.versions[j] == old(i.versions[j]))
+//@   ensures [error-keeps-refs] err != nil ==> repository.refs == old(repository.refs)
+//@   loop 1
+//@     invariant -1 <= rangeindex && rangeindex < m
+//@     invariant len(i.versions) == max(n, rangeindex + 1)
+//@     invariant sarr(i.versions) != sarr(other.versions) && i.versions[0].id == old(i.versions[0].id)
+//@     invariant forall k int :: { other.versions[k] } 0 <= k && k < m ==> other.versions[k] == old(other.versions[k]) && other.versions[k] != nil
+//@     invariant forall k int :: { i.versions[k] } { old(i.versions[k]) } 0 <= k && k < n ==> i.versions[k] == old(i.versions[k])
+//@     invariant forall k int :: { i.versions[k] } { other.versions[k] } 0 <= k && k <= rangeindex ==> i.versions[k] != nil && i.versions[k].commitHash == other.versions[k].commitHash
+//@     invariant forall k int :: { i.versions[k] } { other.versions[k] } n <= k && k <= rangeindex ==> i.versions[k] == other.versions[k]
+//@     invariant modified == (rangeindex + 1 > n)
+//@     invariant modified ==> lastCommit == other.versions[rangeindex].commitHash
+//@     invariant repository.refs == old(repository.refs)
